@@ -103,6 +103,26 @@ func runC20(c *engine.Ctx, tier string) {
 		Sel:     engine.Sel{Field: "config/v3.AppliedConfiguration.Target", RHS: "@IDX", Filter: inRoot("Reconciler.applyChange", func(p *engine.Path, i int) bool { return !wroteBefore(p, i, v3State, v3Pfx+"ABORTED") })},
 		Require: "(!(@CFG.Applied.Revision < config/v3.Revision(@T.Status.Rollback.Index)) && @T.Status.Change.Apply.State == " + v3Pfx + "PENDING) || @T.Status.Change.Apply.State == " + v3Pfx + "ABORTED || @T.Status.Change.Apply.State == " + v3Pfx + "FAILED",
 		Why:     "a change whose predecessor failed or was aborted (applied revision behind the captured rollback index) is aborted, not applied, until it is rolled back"})
+	// reverse order of rollbacks
+	g(engine.Guard{ID: "C20.2c", Min: 1,
+		Sel: engine.Sel{Field: "config/v3.CommittedConfiguration.Target", RHS: "@T.Status.Rollback.Index"},
+		Require: "@CFG.Committed.Revision == config/v3.Revision(@IDX) && @CFG.Committed.Target == @IDX && @CFG.Committed.Index == @CFG.Committed.Target && " +
+			"(errors.IsNotFound(err(@PREVC)) || @PREVC.Status.Change.Commit.State == " + complete + " || @CFG.Committed.Index != @IDX)",
+		Why: "spec CommitRollback: the committed target moves back only for the change the configuration currently reflects, whose own commit has completed"})
+	g(engine.Guard{ID: "C20.3c", Min: 1,
+		Sel: engine.Sel{Field: "config/v3.AppliedConfiguration.Target", RHS: "@T.Status.Rollback.Index"},
+		Require: "@T.Status.Rollback.Commit.State == " + complete + " && @CFG.Applied.Ordinal == (@T.Status.Rollback.Ordinal - 1) && (errors.IsNotFound(err(@PREVA)) || " +
+			"((@CFG.Applied.Index != @IDX || @PREVA.Status.Change.Apply.State >= " + complete + ") && (@CFG.Applied.Index <= @IDX || @PREVA.Status.Rollback.Apply.State >= " + complete + ")))",
+		Why: "spec ApplyRollback: rollbacks are applied in ordinal order, each after what the applied configuration currently reflects has finished"})
+	// recovery: a change whose apply was aborted or failed but whose cursors were not written yet completes the write
+	for _, x := range []struct{ id, root, st string }{
+		{"C20.5d", "Reconciler.applyChange", "ABORTED"}, {"C20.5e", "Reconciler.applyChange", "FAILED"},
+	} {
+		c.Outcome(engine.Outcome{ID: x.id, Pkg: pkgTxCtlV3, PathsOverride: vp, Root: x.root, Min: 1, Consistent: true,
+			When: "@T.Status.Change.Commit != nil && @T.Status.Change.Apply != nil && @T.Status.Change.Commit.State == " + complete + " && @T.Status.Change.Apply.State == " + v3Pfx + x.st + " && @CFG.Applied.Ordinal < @T.Status.Change.Ordinal",
+			Must: []engine.Sel{{Field: "config/v3.AppliedConfiguration.Index", RHS: "@IDX"}, {Field: "config/v3.AppliedConfiguration.Ordinal", RHS: "@T.Status.Change.Ordinal"}, {Call: v3CfgUpd}},
+			Why:  "a crash between the two records leaves the applied cursors behind an " + x.st + " change: the next pass must move them, or every later change waits for ever"})
+	}
 	// (4) write order
 	g(engine.Guard{ID: "C20.4a", Min: 4,
 		Sel:     engine.Sel{Field: "config/v3.CommittedConfiguration.Change", RHS: "@IDX"},
